@@ -1385,6 +1385,22 @@ fn family_review(g: &mut G, rng: &mut Rng, thorough: bool) {
         }
     }
 
+    // ---- C04 (seeded C04-4): an "SBN ladder" on ONE object - an FTI announcing 2^24 tiny source blocks,
+    //      then packets whose SBN climbs by 4096: the block window must refuse them (object in error),
+    //      not grow the block table packet after packet.  Modelled (the object model has the window).
+    {
+        g.cfg2("sbn-ladder", 4, false, true, 1 << 16, true, true, 0, false, 0);
+        g.ctx.nontrivial("sbn-ladder");
+        g.ctx.count("malformed:sbn-ladder");
+        for i in 0..24u32 {
+            let sbn = 2047 + 4096 * (i + 1);
+            let p = mk_pkt(900, None, 1, 2, true, 1u64 << 25, sbn, 0, vec![7], false, None);
+            g.push(&p, T0 + i as i64);
+        }
+        g.cleanup(T0 + SEC, false);
+        g.end();
+    }
+
     // ---- C17 (seeded C17-4): idle sessions with a pending object at the MultiReceiver (oracle only)
     {
         g.cfg2("idle-sessions", 0, true, false, 1 << 16, true, true, 0, false, 0);
